@@ -54,7 +54,7 @@ Proof.
 Qed.
 
 Section WithOracles.
-Variable fixed : bool.
+Variable v : variant.
 Variable fail_at : nat -> bool.
 Variable openable : nat -> bool.
 
@@ -103,7 +103,7 @@ Qed.
 Lemma run_stage_shell : forall pipes capo cape capture idx st sh sh1 k T0,
   cap_ok capture capo cape -> idx <= length pipes ->
   Rep T0 (Lpar pipes capo cape idx) (tab sh) ->
-  run_stage fixed openable pipes capo cape capture idx st sh = (sh1, k) ->
+  run_stage v openable pipes capo cape capture idx st sh = (sh1, k) ->
   Rep T0 (Lpar pipes capo cape (S idx)) (tab sh1).
 Proof.
   intros pipes capo cape capture idx st sh sh1 k T0 CO LE R H.
@@ -179,14 +179,14 @@ Qed.
 Lemma run_stages_shell : forall pipes capo cape capture T0 sts idx sh sh1 ks,
   cap_ok capture capo cape -> idx + length sts = S (length pipes) ->
   Rep T0 (Lpar pipes capo cape idx) (tab sh) ->
-  run_stages fixed openable pipes capo cape capture idx sts sh = (sh1, ks) ->
+  run_stages v openable pipes capo cape capture idx sts sh = (sh1, ks) ->
   Rep T0 [] (tab sh1) /\ length ks = length sts.
 Proof.
   intros pipes capo cape capture T0. induction sts as [|st rest IH]; intros idx sh sh1 ks CO HL R H; cbn in H.
   - injection H as <- <-. cbn in HL. unfold Lpar in R.
     assert (E : (idx <=? length pipes) = false) by (apply Nat.leb_gt; lia). rewrite E in R. auto.
-  - destruct (run_stage fixed openable pipes capo cape capture idx st sh) as [sh2 k] eqn:ES.
-    destruct (run_stages fixed openable pipes capo cape capture (S idx) rest sh2) as [sh3 ks3] eqn:ER.
+  - destruct (run_stage v openable pipes capo cape capture idx st sh) as [sh2 k] eqn:ES.
+    destruct (run_stages v openable pipes capo cape capture (S idx) rest sh2) as [sh3 ks3] eqn:ER.
     injection H as <- <-. cbn in HL.
     assert (LE : idx <= length pipes) by lia.
     pose proof (run_stage_shell _ _ _ _ _ _ _ _ _ _ CO LE R ES) as R2.
@@ -209,8 +209,8 @@ Proof. intros p T0 R x. apply (proj1 (rep_nil _ _) R). Qed.
 
 Theorem shell_restored : forall pl sh,
   is_single_builtin pl = false ->
-  (capture_fails pl = true -> length (p_stages pl) = 1) ->
-  let r := run_pipeline fixed fail_at openable pl sh in
+  (capture_fails pl = true -> length (p_stages pl) = 1 \/ v_capfail v = true) ->
+  let r := run_pipeline v fail_at openable pl sh in
   teq_tab (res_shell r) (tab sh) /\
   (res_error r = false -> length (res_kids r) = length (p_stages pl)).
 Proof.
@@ -229,20 +229,27 @@ Proof.
       destruct (p_capture pl) eqn:EC.
       * destruct (fail_at (length more)) eqn:F1.
         { cbn [res_shell res_error]. split; [|discriminate].
-          assert (length (st0 :: more) = 1) as CF1.
+          assert (length (st0 :: more) = 1 \/ v_capfail v = true) as CF1.
           { apply CF. rewrite ?F1. reflexivity. } clear CF. cbn [length] in CF1.
-          assert (length more = 0) by lia.
-          destruct pipes; [|cbn in HL; lia]. cbn in R1. apply rep_nil_teq. exact R1. }
+          apply rep_nil_teq. unfold cap_release. destruct (v_capfail v) eqn:VC.
+          - apply (close_pairs_rep _ pipes 0 []). exact R1.
+          - destruct CF1 as [CF1|CF1]; [|discriminate]. assert (length more = 0) by lia.
+            destruct pipes; [|cbn in HL; lia]. cbn in R1. exact R1. }
         destruct (p_pipe PCapOut sh1) as [sh2 o] eqn:EO. destruct o as [cor cow].
         destruct (fail_at (S (length more))) eqn:F2.
         { cbn [res_shell res_error]. split; [|discriminate].
-          assert (length (st0 :: more) = 1) as CF1.
-          { apply CF. rewrite ?F1, ?F2. reflexivity. } clear CF. cbn [length] in CF1. assert (length more = 0) by lia.
-          destruct pipes; [|cbn in HL; lia]. cbn in R1. apply rep_nil_teq.
+          assert (length (st0 :: more) = 1 \/ v_capfail v = true) as CF1.
+          { apply CF. rewrite ?F1, ?F2. reflexivity. } clear CF. cbn [length] in CF1.
+          apply rep_nil_teq.
           pose proof (p_pipe_rep _ _ _ _ _ _ _ R1 EO) as R2.
-          apply (close_pair_rep _ (cor, cow) (eR PCapOut) (eW PCapOut) [] (p_pipefail sh2)). exact R2. }
+          assert (R3 : Rep (lookup (tab sh)) (plive 0 pipes ++ []) (tab (close_pair (cor, cow) (p_pipefail sh2)))).
+          { apply (close_pair_rep _ (cor, cow) (eR PCapOut) (eW PCapOut) _ (p_pipefail sh2)). exact R2. }
+          unfold cap_release. destruct (v_capfail v) eqn:VC.
+          - apply (close_pairs_rep _ pipes 0 []). exact R3.
+          - destruct CF1 as [CF1|CF1]; [|discriminate]. assert (length more = 0) by lia.
+            destruct pipes; [|cbn in HL; lia]. cbn in R3. exact R3. }
         destruct (p_pipe PCapErr sh2) as [sh3 e] eqn:EE. destruct e as [cer cew].
-        destruct (run_stages fixed openable pipes (Some (cor, cow)) (Some (cer, cew)) true 0 (st0 :: more) sh3) as [sh4 ks] eqn:ER.
+        destruct (run_stages v openable pipes (Some (cor, cow)) (Some (cer, cew)) true 0 (st0 :: more) sh3) as [sh4 ks] eqn:ER.
         cbn [res_shell res_error res_kids].
         pose proof (p_pipe_rep _ _ _ _ _ _ _ R1 EO) as R2.
         pose proof (p_pipe_rep _ _ _ _ _ _ _ R2 EE) as R3.
@@ -258,7 +265,7 @@ Proof.
         assert (HLen : 0 + length (st0 :: more) = S (length pipes)) by (cbn; lia).
         destruct (run_stages_shell _ _ _ _ _ _ _ _ _ _ CO HLen R4 ER) as (R5 & L5).
         split; [apply rep_nil_teq; exact R5 | intros _; exact L5].
-      * destruct (run_stages fixed openable pipes None None false 0 (st0 :: more) sh1) as [sh4 ks] eqn:ER.
+      * destruct (run_stages v openable pipes None None false 0 (st0 :: more) sh1) as [sh4 ks] eqn:ER.
         cbn [res_shell res_error res_kids].
         assert (R4 : Rep (lookup (tab sh)) (Lpar pipes None None 0) (tab sh1)).
         { unfold Lpar. cbn [Nat.leb prevlive skipn app caplive]. exact R1. }
@@ -271,7 +278,7 @@ Qed.
 (* the up-front loop: whichever pipe() fails, everything created is released and the result is an error *)
 Theorem emfile_upfront : forall pl sh k,
   k < length (p_stages pl) - 1 -> fail_at k = true ->
-  let r := run_pipeline fixed fail_at openable pl sh in
+  let r := run_pipeline v fail_at openable pl sh in
   res_error r = true /\ res_kids r = [] /\ teq_tab (res_shell r) (tab sh).
 Proof.
   intros pl sh k HK HF. unfold run_pipeline.
